@@ -68,7 +68,7 @@ def build(case, ck, counter):
     # the result depends on every argument (so that grad has something to differentiate) but has a static shape
     dep = " + ".join([f"jnp.sum({p['name']})" for p in case["params"]] + (["kint"] if case.get("int_scalar") else [])) or "0.0"
     src = f"def fn({', '.join(parts)}){retstr}:\n    __count.append(1)\n    return jnp.zeros({shape!r}, dtype='float32') + ({dep}) * 0.0\n"
-    exec(compile(src, "<vf-c17>", "exec"), ns)
+    gc.exec_source(src, "<vf-c17>", ns)
     with warnings.catch_warnings():
         warnings.simplefilter("ignore")
         return jaxtyped(typechecker=gc.checker(ck))(ns["fn"])
